@@ -450,23 +450,23 @@ func evaluateCollectionExpression(expression *grammar.CollectionExpression, datu
 
 			if v.Kind() == reflect.Map {
 				key := keys[i]
-				if expression.NameBinding.Default != "" {
-					innerOpt = append(innerOpt, WithLocalVariable(expression.NameBinding.Default, nil, key.Interface()))
-				}
-				if expression.NameBinding.Index != "" {
-					innerOpt = append(innerOpt, WithLocalVariable(expression.NameBinding.Index, nil, key.Interface()))
-				}
+				// The value is an alias for the collection's selector, which was
+				// resolved outside of this scope: it must be added before the key
+				// so that it is not looked up through it (variables are searched
+				// from the last one added to the first).
 				if expression.NameBinding.Value != "" {
 					path := make([]string, 0, len(expression.Selector.Path)+1)
 					path = append(path, expression.Selector.Path...)
 					path = append(path, key.Interface().(string))
 					innerOpt = append(innerOpt, WithLocalVariable(expression.NameBinding.Value, path, nil))
 				}
-			} else {
-				if expression.NameBinding.Index != "" {
-					innerOpt = append(innerOpt, WithLocalVariable(expression.NameBinding.Index, nil, i))
+				if expression.NameBinding.Default != "" {
+					innerOpt = append(innerOpt, WithLocalVariable(expression.NameBinding.Default, nil, key.Interface()))
 				}
-
+				if expression.NameBinding.Index != "" {
+					innerOpt = append(innerOpt, WithLocalVariable(expression.NameBinding.Index, nil, key.Interface()))
+				}
+			} else {
 				pathValue := make([]string, 0, len(expression.Selector.Path)+1)
 				pathValue = append(pathValue, expression.Selector.Path...)
 				pathValue = append(pathValue, fmt.Sprintf("%d", i))
@@ -475,6 +475,10 @@ func evaluateCollectionExpression(expression *grammar.CollectionExpression, datu
 				}
 				if expression.NameBinding.Value != "" {
 					innerOpt = append(innerOpt, WithLocalVariable(expression.NameBinding.Value, pathValue, nil))
+				}
+				// as above, the index comes after the aliases
+				if expression.NameBinding.Index != "" {
+					innerOpt = append(innerOpt, WithLocalVariable(expression.NameBinding.Index, nil, i))
 				}
 			}
 
